@@ -233,9 +233,14 @@ func runC08(c *h.Ctx) {
 	eg := NewExecGen(c.Rand("c08"))
 	eg.G.C.Datetime = true
 	eg.Deterministic = true
-	n := c.PerShard(c.N(200000, 4000000))
+	n := c.PerShard(c.N(1500000, 15000000))
 	for i := 0; i < n; i++ {
 		checkC08(c, eg.Next())
 	}
+	nh := c.PerShard(c.N(100000, 1000000))
+	for i := 0; i < nh; i++ {
+		checkC08(c, eg.harvestCase(i*c.NShards+c.Shard))
+	}
+	c.Count("harvested.paths", int64(len(harvestedPaths())))
 	c.Count("gen.rejected-by-parser", int64(eg.Bad))
 }
